@@ -84,6 +84,7 @@ func genNCCommon(rs uint64, prop string) (*NCSession, *rand.Rand) {
 	sc.ReadSize = pick(r, 1, 7, 64, 1024, 8192, 65535)
 	sc.TimeoutOpsUS = sc.ReadDelayUS * 400
 	sc.Net = genNet(r, rd, kernel.Stream(rs, "netseed").Uint64())
+	sc.Net.Marks = ncMarks
 	sc.F = simnet.NoFaults()
 
 	return sc, r
